@@ -437,7 +437,7 @@ func (e *kvElection) becomeLeader(token string, rev uint64) {
 		e.validationLoop(e.ctx, token)
 	}()
 
-	if e.onPromote != nil {
+	if onPromote := e.onPromote; onPromote != nil {
 		log.Info("leader_promoted",
 			append(e.logWithContext(e.ctx),
 				zap.String("token", token),
@@ -465,7 +465,7 @@ func (e *kvElection) becomeLeader(token string, rev uint64) {
 			}()
 			promoteCtx, cancel := context.WithCancel(termCtx)
 			defer cancel()
-			e.onPromote(promoteCtx, token)
+			onPromote(promoteCtx, token)
 		}()
 	}
 }
@@ -677,13 +677,17 @@ func (e *kvElection) Stop() error {
 	case <-time.After(5 * time.Second):
 	}
 
-	if wasLeader && e.onDemote != nil {
+	e.mu.RLock()
+	onDemote := e.onDemote
+	e.mu.RUnlock()
+
+	if wasLeader && onDemote != nil {
 		log.Info("leader_demoted",
 			append(e.logWithContext(e.ctx),
 				zap.String("reason", "stop"),
 			)...,
 		)
-		e.onDemote()
+		onDemote()
 	}
 
 	return nil
@@ -818,7 +822,11 @@ func (e *kvElection) StopWithContext(ctx context.Context, opts StopOptions) erro
 		}
 	}
 
-	if wasLeader && e.onDemote != nil {
+	e.mu.RLock()
+	onDemote := e.onDemote
+	e.mu.RUnlock()
+
+	if wasLeader && onDemote != nil {
 		log := e.getLogger()
 		log.Info("leader_demoted",
 			append(e.logWithContext(ctx),
@@ -826,10 +834,6 @@ func (e *kvElection) StopWithContext(ctx context.Context, opts StopOptions) erro
 				zap.Bool("wait_for_demote", opts.WaitForDemote),
 			)...,
 		)
-
-		e.mu.RLock()
-		onDemote := e.onDemote
-		e.mu.RUnlock()
 
 		if onDemote != nil {
 			if opts.WaitForDemote {
